@@ -191,6 +191,17 @@ CHECKS = {
          "detector only). The translator (Go, syntactic, fails closed on anything unclassified) is part of the trusted base.",
     technique="Go-AST-to-Coq translation re-run every check + reflective checker with soundness proof (trace semantics, all interleavings) + stress observation",
     design="5/C08"),
+ "C09": dict(
+    text="Proof: timeline_genuine (an outbox entry is shown as genuine only if it is an activity whose actor, after the re-fetch rule, "
+         "is an actor document carrying exactly the owner's id and served by that id's host), reply_genuine, new_post_authors / "
+         "creators_ok (author and post on the same host; both ids absent equal, one absent not), new_post_parent, timeline_total, "
+         "classify_all_length / nth (one verdict per entry, in order, nothing dropped) - for every world, cache and source. Tie: "
+         "actors and posts built by pub.New against multi-host TLS worlds mixing legitimate entries with every kind of impostor; the "
+         "verdict of every Harvest position equals Listing.timeline_entry / reply_entry AND the generator's ground truth.",
+    note="Paging of the listing is C10's subject (root-only collections here). Only what decides genuine-versus-error is modelled; the "
+         "rest of what a constructor stores cannot change the verdict.",
+    technique="Coq proof (acceptance rules over the provenance theorem of C02) + differential correspondence and ground-truth oracle against a TLS simulator",
+    design="5/C09"),
 }
 PENDING_REASON = "check not built yet in this session (work in progress; planned in DESIGN.md section 5)"
 
